@@ -359,13 +359,19 @@ type c20Hammer struct {
 	St    int      `json:"st"`
 	N     int      `json:"n"`
 	Kinds []string `json:"kinds"`
+	// after every Burst calls the goroutine sleeps SleepUs of virtual time (0: never), so that
+	// packets (SACKs, DATA, RE-CONFIG) arrive and are processed while the hammering goes on
+	Burst   int `json:"burst,omitempty"`
+	SleepUs int `json:"sleepus,omitempty"`
 }
 
 type c20PWriter struct {
-	Side int `json:"side"`
-	St   int `json:"st"`
-	N    int `json:"n"`
-	Size int `json:"size"`
+	Side    int `json:"side"`
+	St      int `json:"st"`
+	N       int `json:"n"`
+	Size    int `json:"size"`
+	Burst   int `json:"burst,omitempty"`
+	SleepUs int `json:"sleepus,omitempty"`
 }
 
 type c20Press struct {
@@ -391,12 +397,14 @@ func genC20Press(rt *rapid.T) c20Press {
 	nw := rapid.IntRange(1, 3).Draw(rt, "nwriters")
 	for i := 0; i < nw; i++ {
 		x.Writers = append(x.Writers, c20PWriter{Side: rapid.IntRange(0, 1).Draw(rt, "wside"), St: rapid.IntRange(0, ns-1).Draw(rt, "wst"),
-			N: rapid.IntRange(20, 150).Draw(rt, "wn"), Size: rapid.SampledFrom([]int{8, 100, 1200}).Draw(rt, "wsize")})
+			N: rapid.IntRange(20, 150).Draw(rt, "wn"), Size: rapid.SampledFrom([]int{8, 100, 1200}).Draw(rt, "wsize"),
+			Burst: rapid.SampledFrom([]int{0, 1, 5, 20}).Draw(rt, "wburst"), SleepUs: rapid.SampledFrom([]int{100, 1000, 3000}).Draw(rt, "wsleep")})
 	}
 	nh := rapid.IntRange(1, 5).Draw(rt, "nhammers")
 	for i := 0; i < nh; i++ {
 		h := c20Hammer{Side: rapid.IntRange(0, 1).Draw(rt, "hside"), St: rapid.IntRange(0, ns-1).Draw(rt, "hst"), N: rapid.IntRange(100, 1500).Draw(rt, "hn")}
 		h.Kinds = rapid.SliceOfNDistinct(rapid.SampledFrom(c20HammerKinds), 1, 3, rapid.ID[string]).Draw(rt, "hkinds")
+		h.Burst, h.SleepUs = rapid.SampledFrom([]int{0, 0, 3, 20, 100}).Draw(rt, "hburst"), rapid.SampledFrom([]int{50, 500, 2000}).Draw(rt, "hsleep")
 		x.Hammers = append(x.Hammers, h)
 	}
 	if rapid.Bool().Draw(rt, "faults") {
@@ -448,6 +456,9 @@ func runC20Press(t *testing.T, x c20Press, verbose bool) vfCase {
 							fail("write-error", "write failed: %v", err)
 							return
 						}
+						if w.Burst > 0 && i%w.Burst == w.Burst-1 {
+							time.Sleep(time.Duration(w.SleepUs) * time.Microsecond)
+						}
 					}
 				}()
 			}
@@ -468,6 +479,9 @@ func runC20Press(t *testing.T, x c20Press, verbose bool) vfCase {
 					st := hs[h.Side][h.St]
 					ps := x.Streams[h.St]
 					for i := 0; i < h.N; i++ {
+						if h.Burst > 0 && i%h.Burst == h.Burst-1 {
+							time.Sleep(time.Duration(h.SleepUs) * time.Microsecond)
+						}
 						switch h.Kinds[i%len(h.Kinds)] {
 						case "setrel":
 							st.SetReliabilityParams(ps.Unord, byte(ps.RelT), uint32(ps.RelV))
